@@ -69,6 +69,10 @@ CLAIMED = {
  'C15': dict(level='model_checking', ref='5/C15',
    text='Self-composition per family instance: P(x); evaluations of a sibling of the same family, of another family, of P elsewhere / with one coordinate kept; P(x) again -- with x, x\' symbolic points of the box: the two values are equal terms (solver), the supplied holder is returned and filled, the earlier holder keeps its value, the point and a deep snapshot of the problem object and generation tables are unchanged; the same sequences on concrete points compared with values computed in a clean forked process (history independence). Hill, Shekel, Shekel4, Grishagin, GKLS, Rastrigin, XSquared, StronginC3.',
    note='z3; symex proxies; unmodelled functions (exp, sin of non-multiples of pi, sqrt outside GKLS) are opaque functions of their argument term, which is sound for equality of two evaluations'),
+
+ 'C01': dict(level='model_checking', ref='5/C01',
+   text='A chain of solver obligations on the real code: the power-mean fact PM_N (N<=5), L1 "the characteristic computed by the real CalculateGlobalR is minus a valid scaled lower bound of any Hoelder-continuous objective over the interval" (interior and both boundary forms, all real inputs), L2 "an interval shorter than eps has characteristic < 2 eps", L3 = C02 (kernels = formulas, M running maximum floored at 1, maximal characteristic chosen from up-to-date values: kernels + one step from the invariant), L4 = C03 (stop rule), composed on paper into the eps-optimality bound; plus a bounded end-to-end twin through the public interface (N=1, <=5 trials, eps, L and all objective values symbolic under the Lipschitz condition) against the minimum of the smallest L-Lipschitz interpolant with M recomputed from the observed history.',
+   note='z3 nlsat; symex proxies; the composition of the lemmas and the N>=2 statement with the grid term rest on the cited theorem (Strongin & Sergeyev) and on C07/C08; floats as reals'),
 }
 checks = []
 for p in props:
